@@ -817,7 +817,7 @@ impl<'a> Interp<'a> {
             self.events.insert("c_expansion");
         }
         let mut sub = 0;
-        for assignment in 0..(1u64 << xcols.len()) {
+        for assignment in 0..(1u128 << xcols.len().min(127)) {
             let mut v = vals.clone();
             for (j, &c) in xcols.iter().enumerate() {
                 v[c] = EV::Num(((assignment >> j) & 1) as i64);
